@@ -222,3 +222,40 @@ def main(argv=None):
 
 if __name__ == "__main__":
   main()
+
+
+def z3_query(run, oid, assumptions, negated, meta, timeout_ms=None):
+  """Engine-B obligation through the z3 Python API: checks the reachability twin (assumptions alone must be sat)
+  and the negated property.  Returns (verdict string, model dict or None)."""
+  import z3
+  s = z3.Solver()
+  s.set("timeout", timeout_ms or (120000 if run.quick() else 600000))
+  s.add(*assumptions)
+  t0 = time.time()
+  tw = str(s.check())
+  s.add(*negated)
+  v = s.check()
+  dt = time.time() - t0
+  ob = solve.Obligation("%s_%s" % (run.prop, oid), "(z3 python API) " + oid, meta=dict(meta, secs=round(dt, 2)), solver="z3")
+  ob.result = solve.Result(str(v), {}, dt, "z3")
+  run.obls.append(ob)
+  tob = solve.Obligation("%s_%s_twin" % (run.prop, oid), "", expect="sat", meta=meta, solver="z3", twin=True)
+  tob.result = solve.Result(tw, {}, 0.0, "z3")
+  run.obls.append(tob)
+  if tw != "sat":
+    run.inconclusive_("reachability twin of %s is %s" % (oid, tw))
+  model = None
+  if v == z3.sat:
+    model = {}
+    m = s.model()
+    for d in m.decls():
+      val = m[d]
+      if z3.is_int_value(val):
+        model[d.name()] = val.as_long()
+      elif z3.is_rational_value(val):
+        model[d.name()] = [val.numerator_as_long(), val.denominator_as_long()]
+      elif z3.is_true(val) or z3.is_false(val):
+        model[d.name()] = z3.is_true(val)
+  elif v != z3.unsat:
+    run.inconclusive_("%s: solver answered %s" % (oid, v))
+  return str(v), model
